@@ -170,6 +170,26 @@ def run_tlc(module, cfg, files=None, workers=None, timeout=1800, simulate=None, 
                                                             out[-3000:] + p.stderr[-1000:]))
 
 
+def run_tlapm(module, deps=(), timeout=900):
+    """Check the proofs of spec/<module>.tla with the TLA+ proof system in a scratch copy (no cache is kept).
+    Returns the number of proved obligations; raises Infra if an obligation is not proved (a proof is a statement
+    about the specification, never a verdict about the implementation)."""
+    d = tempfile.mkdtemp(prefix="tlapm-", dir=scratch())
+    for f in (module,) + tuple(deps):
+        shutil.copy(os.path.join(SPEC, f + ".tla"), d)
+    try:
+        p = subprocess.run(["tlapm", "--threads", str(NCPU), module + ".tla"], cwd=d, capture_output=True, text=True, timeout=timeout)
+    except subprocess.TimeoutExpired:
+        raise Infra("tlapm timeout after %ds on %s" % (timeout, module))
+    finally:
+        shutil.rmtree(d, ignore_errors=True)
+    out = p.stdout + p.stderr
+    m = re.search(r"All (\d+) obligations? proved", out)
+    if not m:
+        raise Infra("tlapm did not prove %s:\n%s" % (module, out[-2000:]))
+    return int(m.group(1))
+
+
 # ------------------------------------------------------------------ real pipeline
 
 def run_real_full(sessions, nworkers=None, timeout=900):
